@@ -11,3 +11,4 @@ import SparseV.Props.Program
 #print axioms SparseV.Program.program_canonical
 #print axioms SparseV.Program.program_refines
 #print axioms SparseV.Program.program_errors
+#print axioms SparseV.Program.program_canonical_pruned
